@@ -365,6 +365,37 @@ def impl(c):
         binding.append(["userinfo", m[0], "client_1", R.resolve_raw("userinfo", m[0])])
         for caller in prov.CLIENTS:
             binding.append(["introspect", m[0], caller, R.resolve_raw("introspect", m[0], caller)])
+    # two requests whose steps INTERLEAVE at one endpoint object (parse A, parse B, process A, process B — and B first): each is answered
+    # for the session its own token was minted in, whatever the endpoint kept from the other
+    inter = []
+    live_at = [m for m in minted if m[1] == "access" and m[3]]
+    for _ in range(min(12, len(live_at) * 2)):
+        if len(live_at) < 2:
+            break
+        a, b = rng.sample(live_at, 2)
+        for slot in ("userinfo", "introspect"):
+            try:
+                if slot == "userinfo":
+                    ep = R.s.get_endpoint("userinfo")
+                    pa = ep.parse_request({}, http_info={"headers": {"authorization": "Bearer " + a[0]}})
+                    pb = ep.parse_request({}, http_info={"headers": {"authorization": "Bearer " + b[0]}})
+                    order = rng.choice([(pa, a, pb, b), (pb, b, pa, a)])
+                    got = []
+                    for pr, m in (order[0:2], order[2:4]):
+                        out = ep.process_request(pr)
+                        got.append([m[0], m[2], out.get("response_args", {}).get("sub") if "error" not in out else None])
+                else:
+                    ep = R.s.get_endpoint("introspection")
+                    ca, cb = "client_1", "client_2"
+                    pa = ep.parse_request({"token": a[0], "client_id": ca, "client_secret": R.secret(ca)})
+                    pb = ep.parse_request({"token": b[0], "client_id": cb, "client_secret": R.secret(cb)})
+                    got = []
+                    for pr, m in ((pa, a), (pb, b)):
+                        ra = ep.process_request(pr)["response_args"]
+                        got.append([m[0], m[2], ra.get("sub") if ra.get("active") else None])
+                inter.append([slot, got])
+            except Exception as e:
+                inter.append([slot, "exc:" + type(e).__name__])
     # the resolution layer under the endpoints (SessionManager.get_session_info_by_token with the class slot named): every genuine
     # token, whatever its state, in every class slot — it is what bearer client authentication and several helpers rely on
     KEYS = {"authorization_code": "code", "access_token": "access", "refresh_token": "refresh"}
@@ -385,7 +416,7 @@ def impl(c):
         STATS["by_kind"][r[2]] = STATS["by_kind"].get(r[2], 0) + 1
     STATS["binding_probes"] = STATS.get("binding_probes", 0) + len(binding)
     return {"minted": minted, "results": results, "state_unchanged": before == after, "binding": binding, "owner": {str(k): v for k, v in owner.items()},
-            "sm": smres, "sm_keys": KEYS}
+            "sm": smres, "sm_keys": KEYS, "inter": inter}
 
 
 def model_lines(c, obs):
@@ -450,6 +481,13 @@ def oracle(c, obs):
                 v.append({"cls": "wrong-class-resolved-by-session-manager", "slot": key, "token_class": cls}); break
             if want is None or who != want:
                 v.append({"cls": "token-resolves-to-another-session", "slot": "sm:" + key}); break
+    for slot, got in obs.get("inter", []):
+        if isinstance(got, str):
+            continue
+        for tok, sess, sub in got:
+            want = obs["owner"].get(str(sess))
+            if sub is not None and want is not None and sub != want[0]:
+                v.append({"cls": "token-resolves-to-another-session", "slot": slot, "how": "interleaved requests"}); break
     if not obs["state_unchanged"]:
         v.append({"cls": "refused-probe-changed-state"})
     return v[:3]
